@@ -515,6 +515,63 @@ func C14(tier Tier) int {
 			}
 		}
 	})
+	// hostile varints: every tag (field 1..9 x wire type 0..5) followed by every extreme varint
+	// (as a value or as a length), bare, followed by a few bytes, and nested inside the token's
+	// metadata field
+	{
+		var extremes [][]byte
+		for _, v := range []uint64{0, 1, 127, 128, 1<<31 - 1, 1 << 31, 1<<32 - 1, 1 << 32, 1<<62 - 1, 1 << 62, 1<<63 - 1, 1 << 63, 1<<64 - 1} {
+			extremes = append(extremes, refVarint(nil, v))
+		}
+		// over-long and unterminated varints
+		extremes = append(extremes, bytes.Repeat([]byte{0xff}, 9), append(bytes.Repeat([]byte{0xff}, 9), 0x01), append(bytes.Repeat([]byte{0xff}, 9), 0x7f),
+			append(bytes.Repeat([]byte{0xff}, 10), 0x01), append(bytes.Repeat([]byte{0x80}, 9), 0x00), append(bytes.Repeat([]byte{0xff}, 8), 0x7f))
+		tails := [][]byte{nil, {0x00}, {0x61, 0x62, 0x63}}
+		for field := 1; field <= 9; field++ {
+			for wt := 0; wt <= 5; wt++ {
+				tag := byte(field<<3 | wt)
+				for _, x := range extremes {
+					for _, tl := range tails {
+						buf := append(append([]byte{tag}, x...), tl...)
+						decodeAll(ws[0], buf)
+						// nested: token field 4 (metadata), length-delimited
+						nested := refBytesField(nil, 0x22, buf)
+						decodeAll(ws[0], nested)
+						// after a valid first field
+						decodeAll(ws[0], append([]byte{0x08, 0x01}, buf...))
+					}
+				}
+			}
+		}
+		ws[0].Case("hostile-varints")
+	}
+	// decoded values are private: changing one decoded amount in place must not change what the
+	// same (or another) buffer decodes to afterwards
+	{
+		caster := &data.BigIntCaster{}
+		for _, v := range []*big.Int{big.NewInt(0), big.NewInt(1), big.NewInt(-1), big.NewInt(255), two64} {
+			wire := refAmount(v)
+			a, err1 := caster.Unmarshal(wire)
+			b, err2 := caster.Unmarshal(wire)
+			if err1 != nil || err2 != nil || a == nil || b == nil {
+				continue
+			}
+			a.Add(a, big.NewInt(100))
+			c, _ := caster.Unmarshal(wire)
+			if b.Cmp(v) != 0 || c == nil || c.Cmp(v) != 0 {
+				ws[0].Fail(P, "amount", "decoded-values-share-state", fmt.Sprintf("after adding 100 in place to one value decoded from %x, another decode of the same bytes gives %v / %v instead of %v", wire, b, c, v), "case", fmt.Sprintf("alias:%v", v))
+			}
+			t1, t2 := &esdt.ESDigitalToken{}, &esdt.ESDigitalToken{}
+			enc, _ := (&esdt.ESDigitalToken{Value: v, Properties: []byte{1, 0}}).Marshal()
+			if t1.Unmarshal(enc) == nil && t1.Value != nil {
+				t1.Value.Add(t1.Value, big.NewInt(100))
+				if t2.Unmarshal(enc) != nil || t2.Value == nil || t2.Value.Cmp(v) != 0 {
+					ws[0].Fail(P, "amount", "decoded-values-share-state", fmt.Sprintf("after adding 100 in place to the value of one decoded token, decoding the same bytes %x gives value %v instead of %v", enc, t2.Value, v), "case", fmt.Sprintf("alias-token:%v", v))
+				}
+			}
+			ws[0].Case("decode-private")
+		}
+	}
 	ws[0].Sample(map[string]string{"value": "ESDigitalToken{Type:1, Value:-1, Properties:0100, TokenMetaData:{Nonce:1}, Reserved:01}", "reference_encoding": fmt.Sprintf("%x", refToken(&esdt.ESDigitalToken{Type: 1, Value: big.NewInt(-1), Properties: []byte{1, 0}, TokenMetaData: &esdt.MetaData{Nonce: 1}, Reserved: []byte{1}}))})
 	ws[0].Sample(map[string]string{"amount": "2^64", "wire": fmt.Sprintf("%x", refAmount(two64))})
 	return FinishEnum(P, tier, "exploration", start,
